@@ -237,6 +237,10 @@ pub fn run(ctx: &Ctx) {
             }
         }
     }
+    for n in [255u32, 256, 257, 300] {
+        cases.push(Case::Slit(n, vec![]));
+        cases.push(Case::Slit(n, vec![(0, n - 1, 0x21), (n - 1, n - 1, 0x42), (n - 1, 0, 0x33), (n / 2, n / 2 + 1, 0xff), (0, 0, 11)]));
+    }
     for i in 1..=6u32 {
         for t in 1..=6u32 {
             cases.push(Case::Sllbi(i, t, vec![]));
